@@ -12,6 +12,8 @@
      read-missing         a SELECT (outermost, under EXPLAIN, or a subquery taken by itself) does not
                           list READ on the database of a measurement it reads at some depth
      write-missing        ... does not list WRITE on the database of its INTO target
+     (the same two classes for the second step of a history: every database of the statement is renamed
+      in place and the lists are asked for again; a clone taken after the first question is renamed and asked)
      machinery:*          the statement was not accepted / is of another kind than generated: the
                           generator and the grammar disagree - never a verdict about the property
      drift:list           the list differs from the transcribed declaration (RequiredModel) but
@@ -42,6 +44,11 @@ CallV(who, c, q) ==
   ELSE {V(IF x.Privilege = "READ" THEN "read-missing" ELSE "write-missing", MissSig(who, x, q.srcs))
           : x \in Missing(c.privs, q.srcs, q.tgt)}
 
+RenDb(db) == IF db = "" THEN "dflt" ELSE db \o "x"
+RenTgt(t) == IF t.f = "none" THEN t ELSE [t EXCEPT !.db = RenDb(@)]
+RECURSIVE RenSrcs(_)
+RenSrcs(srcs) == [i \in 1..Len(srcs) |-> IF srcs[i].k = "m" THEN [srcs[i] EXCEPT !.db = RenDb(@)]
+                                       ELSE Sub(RenSrcs(srcs[i].srcs), RenTgt(srcs[i].tgt))]
 HasSelects(s) == s.kind \in SelectKinds \/ s.kind = "CreateContinuousQuery"
 
 Verdicts(r) ==
@@ -64,7 +71,18 @@ Verdicts(r) ==
       inner == IF ~HasSelects(s) THEN {}
                ELSE IF ~Has(o, "sel") \/ Len(o.sel) # Len(qs) \/ Has(o, "walk_panic") THEN {V("machinery:selects", s.kind)}
                ELSE UNION {CallV(IF i = 1 THEN "select" ELSE "subquery", o.sel[i], qs[i]) : i \in 1..Len(qs)}
-      all == empty \cup admin \cup top \cup inner
+      \* second step of the history: every database renamed in place (and in a clone taken after the first question)
+      eqs == [i \in 1..Len(qs) |-> [srcs |-> RenSrcs(qs[i].srcs), tgt |-> RenTgt(qs[i].tgt)]]
+      etop == IF s.kind \in SelectKinds /\ Has(o, "edited")
+              THEN CallV("statement after an in-place edit", o.edited, [srcs |-> RenSrcs(s.srcs), tgt |-> RenTgt(s.tgt)]) ELSE {}
+      einner == IF ~HasSelects(s) \/ ~Has(o, "edited_sel") THEN {}
+                ELSE IF Len(o.edited_sel) # Len(qs) THEN {V("machinery:selects", s.kind)}
+                ELSE UNION {CallV("select after an in-place edit", o.edited_sel[i], eqs[i]) : i \in 1..Len(qs)}
+      cinner == IF ~HasSelects(s) \/ ~Has(o, "clone_edited_sel") THEN {}
+                ELSE IF Len(o.clone_edited_sel) # Len(qs) THEN {V("machinery:selects", s.kind)}
+                ELSE UNION {CallV("edited clone", o.clone_edited_sel[i], eqs[i]) : i \in 1..Len(qs)}
+      hist == IF Has(o, "edit_panic") THEN {V("machinery:edit", s.kind)} ELSE etop \cup einner \cup cinner
+      all == empty \cup admin \cup top \cup inner \cup hist
   IN IF all # {} THEN all
      ELSE IF list = RequiredModel(s) THEN {} ELSE {V("drift:list", s.kind)}
 
